@@ -2,7 +2,7 @@
 use crate::e2e::{check_outcomes, replay_of, E2eOpts};
 use crate::forge;
 use crate::framework::{guarded, Outcome, Report, Tier};
-use crate::oracles::{check_bookkeeping, check_scheduling, check_timing, loop_start};
+use crate::oracles::{check_bookkeeping, check_scheduling, loop_start};
 use crate::prng::Prng;
 use crate::scen::{self, all_cells, ms, random_topology, world_cfg, Cell, TopoOpts};
 use crate::sim::{run_tracer, RunOpts, RunResult, TraceCfg};
@@ -74,7 +74,9 @@ fn install_script(world: &Arc<World>, tcfg: &TraceCfg, density_pct: u64, round_n
             let hl = if v6 { 40 } else { 20 };
             let mut d = transit.clone();
             let off = match tcfg.ports {
-                PortDirection::FixedSrc(_) | PortDirection::FixedBoth(_, _) => hl,
+                PortDirection::FixedSrc(_) => hl,
+                // both ports identify the tracer: alter one of them
+                PortDirection::FixedBoth(_, _) => hl + 2 * r.below(2) as usize,
                 _ => hl + 2,
             };
             if d.len() >= off + 2 {
@@ -167,7 +169,7 @@ fn check_one(world: &Arc<World>, idx: usize, run: &RunResult, tcfg: &TraceCfg, o
     check_outcomes(&w, &a, run, tcfg, o, site, replay, &E2eOpts { check_ext: false });
     check_bookkeeping(&w, &a, run, tcfg, o, site, replay);
     check_scheduling(&w, &a, run, tcfg, o, site, replay, None);
-    check_timing(&w, &a, run, tcfg, o, site, replay, loop_start(&w, idx));
+    crate::oracles::check_timing_for(&w, idx, &a, run, tcfg, o, site, replay, loop_start(&w, idx));
     // what was delivered to the tracer, by class
     let mut by_class: BTreeMap<String, u64> = BTreeMap::new();
     for rt in a.rounds.iter().chain(std::iter::once(&a.tail)) {
@@ -272,6 +274,14 @@ pub fn run_stale(seed: u64, i: usize, cells: &[Cell], tier: Tier) -> Outcome {
     tcfg.max_ttl = 30;
     tcfg.max_inflight = 24;
     let d = r.range(2, 6) as usize;
+    // every other scenario runs until the sequence numbers wrap back to the initial sequence: the
+    // round after the wrap starts at the base of round 0, so a never-sent sequence names a stale
+    // slot whose old probe carries exactly that sequence
+    let wrap = i % 2 == 1;
+    if wrap {
+        tcfg.initial_sequence = 64_511 - r.range(0, 40) as u16;
+        tcfg.max_rounds = Some(820 / d + 30);
+    }
     let target = tcfg.target;
     let v6 = cell.v6;
     // hops answer slowly in round 0 so that many probes go out before the target is known
@@ -370,15 +380,20 @@ pub fn run_stale(seed: u64, i: usize, cells: &[Cell], tier: Tier) -> Outcome {
     });
     let s_first0 = run.rounds.first().and_then(|r| first_seq(&r.probes));
     let mut stale_hits = 0u64;
+    let mut same_seq_hits = 0u64;
     for (round, s2) in forged.lock().unwrap().iter() {
         if let Some(sf) = run.rounds.get(*round).and_then(|r| first_seq(&r.probes)) {
             let idx = usize::from(s2.wrapping_sub(sf));
             if awaited_round0.contains(&idx) && s_first0.is_some() {
                 stale_hits += 1;
+                if *round > 0 && Some(sf) == s_first0 {
+                    same_seq_hits += 1;
+                }
             }
         }
     }
     o.count("forged_sequences_aimed_at_a_stale_awaited_slot", stale_hits);
+    o.count("forged_sequences_equal_to_the_stale_probes_sequence_after_a_wrap", same_seq_hits);
     check_one(&world, 0, &run, &tcfg, &mut o, &site, &replay);
     let w = world.inner.lock().unwrap();
     let a = analyse(&w, 0, &run);
